@@ -292,28 +292,28 @@ theorem openFile_new (s : St) (n : FName) (now : Nat) (h : s.dir.get n = none) :
   unfold openFile
   by_cases hs : s.cfg.symlink = true <;> simp [hs, hit, noFaults, h]
 
-theorem mountNext_numbers (s : St) (act : Active) (r : RotCfg) (force : Bool) (now : Nat)
+theorem mountNextCore_numbers (s : St) (act : Active) (r : RotCfg) (force : Bool) (now : Nat)
     (hn : r.naming = .numbers) (hcl : r.cleanup = none)
     (h : (force || rotationNecessary r act now) = true)
     (d1 : Dir) (hren : s.dir.rename curN ⟨some (.num act.idx), false⟩ = (d1, true))
     (hh : act.handle = curN) (hget : d1.get curN = none) :
-    ∃ s', mountNext s act r force now noFaults =
+    ∃ s', mountNextCore s act r force now noFaults =
         (s', ⟨curN, curN, [], false, act.idx + 1, act.stamp, 0, createdOr s'.dir curN now⟩, false) ∧
       s'.cfg = s.cfg ∧
       s'.dir = (d1.set curN ⟨[], now⟩).append ⟨some (.num act.idx), false⟩ act.pending := by
   obtain ⟨s2, ho, hc2, hd2, -⟩ := openFile_new { s with dir := d1 } curN now hget
   refine ⟨{ s2 with dir := s2.dir.append ⟨some (.num act.idx), false⟩ act.pending }, ?_, hc2, ?_⟩
   · have hr0 : hit noFaults.renameF 0 = false := rfl
-    simp [mountNext, h, hn, hr0, hren, hh, ho, flushAct, cleanup, hcl]
+    simp [mountNextCore, h, hn, hr0, hren, hh, ho, flushAct, cleanup, hcl]
   · simp [hd2]
 
-theorem mountNext_timestamps (s : St) (act : Active) (r : RotCfg) (force : Bool) (now : Nat)
+theorem mountNextCore_timestamps (s : St) (act : Active) (r : RotCfg) (force : Bool) (now : Nat)
     (hn : r.naming = .timestamps) (hcl : r.cleanup = none)
     (h : (force || rotationNecessary r act now) = true)
     (d1 : Dir)
     (hren : s.dir.rename curN ⟨some (collisionFree s.dir act.stamp), false⟩ = (d1, true))
     (hh : act.handle = curN) (hget : d1.get curN = none) :
-    ∃ s', mountNext s act r force now noFaults =
+    ∃ s', mountNextCore s act r force now noFaults =
         (s', ⟨curN, curN, [], false, act.idx, now, 0, createdOr s'.dir curN now⟩, false) ∧
       s'.cfg = s.cfg ∧
       s'.dir = (d1.set curN ⟨[], now⟩).append
@@ -323,7 +323,7 @@ theorem mountNext_timestamps (s : St) (act : Active) (r : RotCfg) (force : Bool)
     ?_, hc2, ?_⟩
   · have hr0 : hit noFaults.renameF 0 = false := rfl
     have hcr : createdOr d1 curN now = now := by simp [createdOr, hget]
-    simp [mountNext, h, hn, hr0, hren, hh, ho, flushAct, cleanup, hcl, hcr]
+    simp [mountNextCore, h, hn, hr0, hren, hh, ho, flushAct, cleanup, hcl, hcr]
   · simp [hd2]
 
 /-! ### rotation preserves the invariant -/
@@ -369,11 +369,11 @@ theorem InvAct.rotated {cfg : Cfg} {d : Dir} {act : Active} {a : Abs} {r : RotCf
     intro _
     simp [Abs.rotate, createdOr, hget]
 
-theorem mountNext_rot (cfg : Cfg) (hc : CfgA cfg) (s : St) (act : Active) (a : Abs) (r : RotCfg)
+theorem mountNextCore_rot (cfg : Cfg) (hc : CfgA cfg) (s : St) (act : Active) (a : Abs) (r : RotCfg)
     (force : Bool) (now : Nat) (hcfg : s.cfg = cfg) (hr : cfg.rot = some r)
     (hi : InvAct cfg s.dir act a) (hst : act.stamp ≤ now)
     (h : (force || rotationNecessary r act now) = true) :
-    ∃ s' act', mountNext s act r force now noFaults = (s', act', false) ∧ s'.cfg = cfg ∧
+    ∃ s' act', mountNextCore s act r force now noFaults = (s', act', false) ∧ s'.cfg = cfg ∧
       InvAct cfg s'.dir act' (a.rotate now) ∧ act'.stamp ≤ now := by
   obtain ⟨-, hcl, hnm⟩ := hc
   have hcl := hcl r hr
@@ -413,7 +413,7 @@ theorem mountNext_rot (cfg : Cfg) (hc : CfgA cfg) (s : St) (act : Active) (a : A
           | ts k r => exact absurd h3.1 hnt
           | cur => exact absurd h3 id
           | ext n => exact absurd h3 id)
-    obtain ⟨s', he, hc', hd'⟩ := mountNext_numbers s act r force now hn hcl h d1 hren hh hg1
+    obtain ⟨s', he, hc', hd'⟩ := mountNextCore_numbers s act r force now hn hcl h d1 hren hh hg1
     refine ⟨s', _, he, hc'.trans hcfg, ?_, hst⟩
     rw [hd'] at *
     apply hi.rotated hr f hdata (.num act.idx) _ _ _ now hg3 hasc hmem
@@ -448,7 +448,7 @@ theorem mountNext_rot (cfg : Cfg) (hc : CfgA cfg) (s : St) (act : Active) (a : A
           | ts k r => exact collisionFree_key s.dir act.stamp e he k r h2 h3.2
           | cur => exact absurd h3 id
           | ext n => exact absurd h3 id)
-    obtain ⟨s', he, hc', hd'⟩ := mountNext_timestamps s act r force now hn hcl h d1 hren hh hg1
+    obtain ⟨s', he, hc', hd'⟩ := mountNextCore_timestamps s act r force now hn hcl h d1 hren hh hg1
     refine ⟨s', _, he, hc'.trans hcfg, ?_, Nat.le_refl _⟩
     rw [hd'] at *
     apply hi.rotated hr f hdata (collisionFree s.dir act.stamp) _ _ _ now hg3 hasc hmem
@@ -460,6 +460,29 @@ theorem mountNext_rot (cfg : Cfg) (hc : CfgA cfg) (s : St) (act : Active) (a : A
       | ts k r => exact ⟨hb.1, Nat.le_trans hb.2 hst⟩
       | cur => exact absurd hb id
       | ext n => exact absurd hb id
+
+/-- the flush of the `BufWriter` preserves the invariant -/
+theorem InvAct.flush {cfg : Cfg} {d : Dir} {act : Active} {a : Abs} (hi : InvAct cfg d act a) :
+    InvAct cfg (d.append act.handle act.pending) { act with pending := [] } a := by
+  obtain ⟨f, hf, hdata⟩ := hi.file
+  have e : d.append act.handle act.pending =
+      d.set (cnOf cfg) ⟨f.data ++ act.pending, f.created⟩ := by
+    rw [hi.handle, append_of_get _ _ f _ hf]
+  rw [e]
+  have := hi.upd (SameRot.set cfg d ⟨f.data ++ act.pending, f.created⟩) _ [] a.cur 0
+    (get_set_self _ _ _) (by simp [hdata]) (fun _ => rfl)
+  exact this
+
+/-- the rotation as the code does it: flush into `rCURRENT`, then rename it -/
+theorem mountNext_rot (cfg : Cfg) (hc : CfgA cfg) (s : St) (act : Active) (a : Abs) (r : RotCfg)
+    (force : Bool) (now : Nat) (hcfg : s.cfg = cfg) (hr : cfg.rot = some r)
+    (hi : InvAct cfg s.dir act a) (hst : act.stamp ≤ now)
+    (h : (force || rotationNecessary r act now) = true) :
+    ∃ s' act', mountNext s act r force now noFaults = (s', act', false) ∧ s'.cfg = cfg ∧
+      InvAct cfg s'.dir act' (a.rotate now) ∧ act'.stamp ≤ now := by
+  rw [mountNext_due s act r force now noFaults h]
+  exact mountNextCore_rot cfg hc { s with dir := s.dir.append act.handle act.pending }
+    { act with pending := [] } a r true now hcfg hr hi.flush hst rfl
 
 /-! ### initialisation -/
 
@@ -683,14 +706,8 @@ theorem step_inv (cfg : Cfg) (hc : CfgA cfg) (s : St) (a : Abs) (t : Nat) (op : 
       rw [hact] at hi
       obtain ⟨hi, hst⟩ := hi
       obtain ⟨f, hf, hdata⟩ := hi.file
-      have hflush : InvAct cfg (s.dir.append act.handle act.pending) { act with pending := [] } a := by
-        have e : s.dir.append act.handle act.pending =
-            s.dir.set (cnOf cfg) ⟨f.data ++ act.pending, f.created⟩ := by
-          rw [hi.handle, append_of_get _ _ f _ hf]
-        rw [e]
-        have := hi.upd (SameRot.set cfg s.dir ⟨f.data ++ act.pending, f.created⟩) _ [] a.cur 0
-          (get_set_self _ _ _) (by simp [hdata]) (fun _ => rfl)
-        exact this
+      have hflush : InvAct cfg (s.dir.append act.handle act.pending) { act with pending := [] } a :=
+        hi.flush
       first
         | (have hs : (step s .flush now noFaults).1 =
               { s with dir := s.dir.append act.handle act.pending,
